@@ -116,7 +116,7 @@ class _WFile:
 
 
 class FsFault:
-    def __init__(self, root, log_path=None, plan=None, hold=None, delays=None):
+    def __init__(self, root, log_path=None, plan=None, hold=None, delays=None, after=None):
         """root: watched directory; plan: {stable_id_tuple: action}; log_path: JSON-lines event log."""
         self.root = os.path.realpath(root)
         self.plan = dict(plan or {})
@@ -134,6 +134,14 @@ class FsFault:
         # delays: optional {stable_id: seconds} -- the point sleeps before it runs (to force an interleaving,
         # e.g. a slow pooled chunk write)
         self.delays = dict(delays or {})
+        # after: optional [(then_sid, first_sid)] -- point then_sid does not run before point first_sid has run
+        # (it gives up waiting after 5 s, so a run in which first_sid never occurs still terminates)
+        self._after_wait = {}
+        self._after_set = {}
+        for then_sid, first_sid in (after or []):
+            ev = threading.Event()
+            self._after_wait.setdefault(tuple(then_sid), []).append(ev)
+            self._after_set.setdefault(tuple(first_sid), []).append(ev)
 
     # -- path helpers -------------------------------------------------------------------------
     def _rel(self, path):
@@ -170,8 +178,17 @@ class FsFault:
             delay = self.delays.get(sid)
         if hold_ev is not None:
             hold_ev.wait(30)
+        for w_ev in self._after_wait.get(sid, []):
+            w_ev.wait(5)
         if delay:
             time.sleep(delay)
+        try:
+            return self._point2(kind, path, do, mid, fail, extra, payload, path2, rel, sid)
+        finally:
+            for s_ev in self._after_set.get(sid, []):
+                s_ev.set()
+
+    def _point2(self, kind, path, do, mid, fail, extra, payload, path2, rel, sid):
         with self.lock:
             k = self.seq
             self.seq += 1
